@@ -82,9 +82,17 @@ int main()
             std::cout << 'S' << subs.size() - 1 << '\n';
          }
          else if (op == "gen") {
-            auto g = std::make_shared<impl::General_substitution>();
-            gens.push_back(g.get());
-            subs.push_back(std::move(g));
+            // through the Lexicon's factory (the way a client gets one); every third one constructed directly
+            if (subs.size() % 3 == 1) {
+               auto g = std::make_shared<impl::General_substitution>();
+               gens.push_back(g.get());
+               subs.push_back(std::move(g));
+            }
+            else {
+               impl::General_substitution* g = lx.make_general_substitution();
+               gens.push_back(g);
+               subs.push_back(std::shared_ptr<Substitution>(g, [](Substitution*) { }));
+            }
             std::cout << 'S' << subs.size() - 1 << '\n';
          }
          else if (op == "bind") {
